@@ -469,11 +469,50 @@ def d4(repo: Repo) -> RuleResult:
     except Inconclusive as e:
         res.unsure(f"D4: {e}")
     pl = m.func("renderer/formatter.py", "Formatter.format_op_mode_endecode_single_type")
-    res.inst(part="planner", function=pl.qual)
-    if "l.extend(self.post_format_op_mode_endecode_single_type(t, chain, is_encode))" not in src_of(pl.node):
-        fd = Finding("D4", pl.rel, pl.node.lineno, pl.qual, "", "the post hook (sign extension) is not appended after the field's statements", tag="planner:post-hook")
-        fd.part = "planner"
-        res.bad(fd)
+    try:
+        from .pyflow import single_atom as _sa
+        from .rules_d import loop_sites
+
+        site = [x for x in loop_sites(repo) if x["lang"] == "planner"][0]
+        if "error" in site:
+            raise Inconclusive(site["error"])
+        hook_ok, hook_seen, why = True, False, ""
+        for p in site["flow"].run(site["fn"]):
+            if p.done != "return":
+                continue
+            effs = p.effects
+            li = [i for i, e in enumerate(effs) if e.kind == "loop"]
+            hk = [i for i, e in enumerate(effs) if e.kind == "call" and e.name == "post_format_op_mode_endecode_single_type"]
+            if not hk:
+                hook_ok, why = False, "the hook is not called"
+                continue
+            hook_seen = True
+            h = effs[hk[0]]
+            if [show(a) for a in h.args] != ["t", "chain", "is_encode"]:
+                hook_ok, why = False, f"the hook is called with ({', '.join(show(a) for a in h.args)})"
+                continue
+            if li and hk[0] < li[-1]:
+                hook_ok, why = False, "the hook runs before the chunk loop"
+                continue
+            # its result must reach the returned list: extend / += / concatenation
+            hv = ("mcall", "post_format_op_mode_endecode_single_type")
+            used = False
+            for e in effs[hk[0] + 1:]:
+                if e.kind == "call" and e.name in ("extend", "append") and e.args:
+                    a = _sa(e.args[0])
+                    if a is not None and a[:2] == hv and e.recv is not None and p.ret is not None and e.recv == p.ret:
+                        used = True
+            if p.ret is not None and any(a[:2] == hv for a in _atoms_deep(p.ret)):
+                used = True
+            if not used:
+                hook_ok, why = False, "the hook's statements are not added to the returned list"
+        res.inst(part="planner", function=pl.qual, post_hook=hook_ok)
+        if not hook_ok:
+            fd = Finding("D4", pl.rel, pl.node.lineno, pl.qual, why, f"the post hook (sign extension) is not appended after the field's statements: {why}", witness="int24 holding -1 with -O", tag="planner:post-hook")
+            fd.part = "planner"
+            res.bad(fd)
+    except Inconclusive as e:
+        res.unsure(f"D4: planner post hook: {e}")
 
     bp = m.mod("bitprotolib/bp.py")
     for N in (8, 16, 32, 64):
@@ -566,6 +605,25 @@ def d6(repo: Repo) -> RuleResult:
         fd.part = "py"
         res.bad(fd)
     return res
+
+
+def _atoms_deep(p: Poly) -> list:
+    out = []
+
+    def rec(q: Poly) -> None:
+        for m_ in q.terms:
+            for a, _ in m_:
+                out.append(a)
+                for x in a[1:]:
+                    if isinstance(x, Poly):
+                        rec(x)
+                    elif isinstance(x, tuple):
+                        for y in x:
+                            if isinstance(y, Poly):
+                                rec(y)
+
+    rec(p)
+    return out
 
 
 def _fstrings(fn: ast.AST) -> List[str]:
